@@ -10,6 +10,9 @@ package logical
 import (
 	"sync"
 
+	"com.tuntun.rangers/node/src/common"
+	"com.tuntun.rangers/node/src/middleware"
+
 	"com.tuntun.rangers/node/src/consensus/access"
 	"com.tuntun.rangers/node/src/consensus/groupsig"
 	"com.tuntun.rangers/node/src/consensus/model"
@@ -114,3 +117,43 @@ func (s *SimSignParty) Finished() bool {
 }
 
 func (s *SimSignParty) Header() *types.BlockHeader { return s.r0.bh }
+
+
+// SimProcessor is a Processor reduced to the party bookkeeping of processor_party.go: parking of verify
+// messages that arrive before a party exists under their block hash (real OnMessageVerify /
+// loadOrNewSignParty) and hand-over of the parked messages once the party has moved to that key.
+type SimProcessor struct{ p *Processor }
+
+func SimNewProcessor(mi *model.SelfMinerInfo, belong *access.JoinedGroupStorage, chain core.BlockChain, ns net.NetworkServer) *SimProcessor {
+	p := &Processor{mi: mi, belongGroups: belong, MainChain: chain, NetServer: ns}
+	p.partyManager = make(map[string]Party, 10)
+	p.partyLock = middleware.NewLoglock("partyLock")
+	p.logger = log.GetLoggerByIndex(log.ConsensusLogConfig, "")
+	p.finishedParty = common.CreateLRUCache(300)
+	p.futureMessages = common.CreateLRUCache(50)
+	return &SimProcessor{p: p}
+}
+
+// OnMessageVerify is the processor's real entry point for verify messages.
+func (s *SimProcessor) OnMessageVerify(cvm *model.ConsensusVerifyMessage) { s.p.OnMessageVerify(cvm) }
+
+// Adopt does, synchronously, what waitUntilDone does when round0 announces the block hash as the
+// party's real key: the party is registered under that key and the messages parked for it are taken
+// out. The real code then delivers them in unordered goroutines; the caller delivers them in an order
+// of its choosing (any order is a legal execution).
+func (s *SimProcessor) Adopt(party *SimSignParty, realKey string) []model.ConsensusMessage {
+	s.p.partyLock.Lock("simAdopt")
+	defer s.p.partyLock.Unlock("simAdopt")
+	party.p.SetId(realKey)
+	s.p.partyManager[realKey] = party.p
+	var out []model.ConsensusMessage
+	if msgsRaw, ok := s.p.futureMessages.Get(realKey); ok {
+		s.p.futureMessages.Remove(realKey)
+		for _, m := range msgsRaw.([]model.ConsensusMessage) {
+			if m != nil {
+				out = append(out, m)
+			}
+		}
+	}
+	return out
+}
